@@ -803,6 +803,49 @@ def run(db: DB, rep: Report) -> None:
     if n_k11 < 1:
         raise AnalysisError("no node built from a collection with a loop over the same collection found (K11)")
 
+    # ---- K13 every input tensor gets its root fiber -------------------------------------------
+    rep.rule("K13", "the per-tensor loop of FlowGraph.__build gives every input tensor a GetRootNode", 1)
+    bld = fg.methods.get("__build")
+    if bld is None:
+        raise AnalysisError("FlowGraph.__build not found")
+
+    def is_root_call(n):
+        return isinstance(n, ast.Call) and isinstance(n.func, ast.Attribute) and \
+            n.func.attr == "__build_swizzle_root_fiber"
+    tloops = [n for n in walk_no_nested(bld.node) if isinstance(n, ast.For) and
+              "get_tensors" in paths.called_names([n.iter]) and any(is_root_call(x) for x in ast.walk(n))]
+    if len(tloops) != 1:
+        rep.undecided("K13", db.loc(bld.node), bld.short, "the per-tensor loop calling __build_swizzle_root_fiber "
+                      "was not found")
+    else:
+        lp = tloops[0]
+        tv = {x.id for x in ast.walk(lp.target) if isinstance(x, ast.Name)}
+        outs = paths.path_counts(lp.body, paths.make_pred(is_root_call))
+        falls = sorted((c, k) for c, k in outs if k == paths.FALL and c < 1)
+        rep.check("K13", not falls, db.loc(lp), bld.short, "root-fiber:falls-through",
+                  "every path through the loop body that is not skipped builds the root fiber",
+                  "a path through the per-tensor loop of FlowGraph.__build completes without "
+                  "__build_swizzle_root_fiber (%s)" % falls)
+        for cn in [x for x in ast.walk(lp) if isinstance(x, ast.Continue) and
+                   not [p_ for p_ in paths.parents(x, lp) if isinstance(p_, (ast.For, ast.While))]]:
+            def top_index(node) -> int:
+                for k_, s_ in enumerate(lp.body):
+                    if any(y is node for y in ast.walk(s_)):
+                        return k_
+                return -1
+            first_root = min(top_index(x) for x in ast.walk(lp) if is_root_call(x))
+            if top_index(cn) > first_root:
+                continue        # the root fiber was built before this continue
+            atoms = [(norm(a), p_) for t, pol in paths.guards(cn, stop=lp) for a, p_ in paths.conjuncts(t, pol)]
+            only_output = bool(atoms) and all(a.endswith(".get_is_output()") and p_ for a, p_ in atoms)
+            rep.check("K13", only_output, db.loc(cn), bld.short, "root-fiber:skip:" + " and ".join(
+                ("" if p_ else "not ") + a for a, p_ in atoms)[:60],
+                      "the only tensors skipped are the output (handled by __build_output)",
+                      "FlowGraph.__build skips a tensor under [%s] before building its root fiber: an input "
+                      "tensor of that kind (e.g. a rank-0 intermediate of a cascade) gets no getRoot(), and "
+                      "the update reads a name no statement binds" %
+                      ", ".join(("" if p_ else "not ") + a for a, p_ in atoms))
+
     # ---- K12 memo tables are keyed by what the memoised answer depends on ----------------
     rep.rule("K12", "a memoised answer about a rank/level is keyed by that rank/level itself", 100)
     if not _fx_k12():
@@ -1252,6 +1295,10 @@ def mutants(db: DB):
           "            tranks = [Symbol(trank.lower())\n                      for trank in tensor.get_init_ranks()]\n            trans = self.program",
           "            if part.get_root_name(rank) in tensor.get_init_ranks():\n                continue\n            tranks = [Symbol(trank.lower())\n                      for trank in tensor.get_init_ranks()]\n            trans = self.program",
           "K11"),
+        M("tensors without ranks skipped by the per-tensor loop", fg,
+          "            init_ranks = tensor.get_ranks()\n            for rank in init_ranks:",
+          "            init_ranks = tensor.get_ranks()\n            if not init_ranks:\n                continue\n            for rank in init_ranks:",
+          "K13"),
         M("leader memoised per root rank", fg,
           "                leader = part.get_leader(src, dsts[-1])\n",
           "                part_root = part.get_root_name(src)\n                if part_root not in self.iter_map:\n                    self.iter_map[part_root] = part.get_leader(src, dsts[-1])\n                leader = self.iter_map[part_root]\n",
